@@ -26,7 +26,9 @@ FnsCore == <<
   Path("$", <<Nm(kl), Wild>>, <<>>),
   Path("$", <<Rec, Wild>>, <<>>),
   Path("$", <<Nm(kl), Wild, Nm(ka)>>, <<AF(Fn_g1)>>),
-  L(And(Exist(Px), Cmp("==", Pa, Px))) >>
+  L(And(Exist(Px), Cmp("==", Pa, Px))),
+  Path("$", <<Nm(kl), Un(<<Sl(-2, FALSE, 2, FALSE, 1, FALSE)>>)>>, <<>>),     \* [-2:2] on lists of different lengths
+  Path("$", <<Nm(kl), Nm(ka)>>, <<>>) >>
 FnsMore == <<
   L(Exist(Px)), L(NotP(Px)), L(Cmp("<=", Px, Pa)), L(Cmp("==", Lit(N1), Lit(N2))), L(Cmp("==", Px, Py)),
   Path("$", <<Nm(kl), Un(<<Idx(0), Idx(1)>>)>>, <<>>), Path("$", <<Nm(kx)>>, <<>>),
@@ -43,7 +45,10 @@ Docs == <<
   D(Big(20), <<N1>>, <<>>),
   D(Obj(<<KV(ka, Oa(N1)), KV(kb, Oa(N2))>>), <<N1>>, <<N1>>),
   N1,
-  D(Arr(<<Oa(Sa), Ob(N1)>>), <<Sa>>, <<N2>>) >>
+  D(Arr(<<Oa(Sa), Ob(N1)>>), <<Sa>>, <<N2>>),
+  Sa,
+  D(Arr(<<Oa(N1), Oa(N2), Oa(N3)>>), <<N3>>, <<>>),
+  Obj(<<KV(kl, Sa)>>), Obj(<<KV(kl, N1)>>) >>
 
 OpSet == [k : {"call"}, d : 1..Len(Docs)] \cup {[k |-> "scribble", d |-> 0], [k |-> "unrelated", d |-> 0]}
 
